@@ -1078,10 +1078,6 @@ impl<'a, R: CharRead> Lexer<'a, R> {
                     };
                 }
 
-                if c == '\u{0}' {
-                    return Err(ParserError::unexpected_eof());
-                }
-
                 self.name_token(c)
             }
             Err(e) => Err(e),
